@@ -32,6 +32,50 @@ fn main() {
             std::process::exit(report.finish());
         }
         "probe" => probe::run(&args[2]),
+        "fuzz-corpus" => {
+            // tx3v fuzz-corpus <target> <dir>: small valid seeds for a libFuzzer campaign
+            let dir = &args[3];
+            std::fs::create_dir_all(dir).expect("corpus dir");
+            let mut n = 0;
+            let mut put = |bytes: &[u8]| {
+                let _ = std::fs::write(format!("{}/seed-{:03}", dir, n), bytes);
+                n += 1;
+            };
+            match args[2].as_str() {
+                "c12_front" => {
+                    for (_, src) in tx3v::fegen::example_sources() {
+                        put(src.as_bytes());
+                    }
+                }
+                "c11_decode" => {
+                    for (_, src) in tx3v::fegen::example_sources() {
+                        if let Ok(mut ast) = tx3v::pipeline::parse(&src) {
+                            if tx3v::pipeline::analyze(&mut ast).map(|r| r.errors.is_empty()).unwrap_or(false) {
+                                for tx in ast.txs.iter() {
+                                    if let Ok(t) = tx3v::pipeline::stage("lower", || tx3_lang::lowering::lower(&ast, &tx.name.value)) {
+                                        put(&tx3_tir::encoding::to_bytes(&t).0);
+                                    }
+                                }
+                            }
+                        }
+                    }
+                }
+                "c16_request" => {
+                    put(br#"{"tir":{"content":"a0","encoding":"hex","version":"v1beta0"},"args":{"qty":"7"},"env":{"x":true}}"#);
+                    put(br#"{"tir":{"bytecode":"oA==","encoding":"base64","version":"v1beta0"},"args":{}}"#);
+                    put(br#"{"content":"00ff","contentType":"hex"}"#);
+                    put(br#""0x0000000000000000000000000000007b""#);
+                }
+                _ => {
+                    // tapes: a few random byte strings of generator-friendly length
+                    for i in 0..16u8 {
+                        let v: Vec<u8> = (0..600u32).map(|k| (k as u8).wrapping_mul(31).wrapping_add(i.wrapping_mul(97)).wrapping_add((k >> 3) as u8)).collect();
+                        put(&v);
+                    }
+                }
+            }
+            println!("wrote {} seeds to {}", n, dir);
+        }
         "fuzz-replay" => {
             // tx3v fuzz-replay <target> <file>: strict re-execution of an input saved by libFuzzer
             let data = std::fs::read(&args[3]).expect("input file");
